@@ -278,6 +278,20 @@ def history_case(acc, warm, engines, totals):
         sums = [float(model.project(t).datavector().sum()) for t in [('A',), ('B',), ('B', 'A')]]
         if abs(model.total - want) > 1e-6 * want or any(abs(x - want) > 1e-6 * want for x in sums):
             fails.append('call %d (%s, total=%r, noise-free N=%g): model.total=%r, answers sum to %r' % (step + 1, engine, total, N, model.total, sums))
+    # the same measurement tuples (the very same answer arrays) passed to three consecutive calls with the total omitted, noise != 1
+    N = 120.0
+    xa, xb = np.array([0.5, 0.3, 0.2]) * N, np.array([0.1, 0.2, 0.3, 0.4]) * N
+    ms = [(np.eye(3), xa.copy(), 2.0, ('A',)), (np.tril(np.ones((4, 4))), np.tril(np.ones((4, 4))) @ xb, 0.5, ('B',))]
+    snap = [np.array(m_[1], copy=True) for m_ in ms]
+    for step in range(3):
+        e_ = eng if step < 2 else FactoredInference(Domain(attrs, sizes), iters=3)    # the third call on a brand-new engine
+        with M.quiet():
+            model = e_.estimate(ms, total=None, engine=engines[step % len(engines)])
+        if abs(model.total - N) > 1e-6 * N:
+            fails.append('same measurement arrays, call %d, total omitted (noise-free N=%g): model.total=%r' % (step + 1, N, model.total))
+            break
+    if any(not np.array_equal(a, np.asarray(m_[1])) for a, m_ in zip(snap, ms)):
+        fails.append('estimate modified the caller\'s answer arrays')
     return fails
 
 
